@@ -5,6 +5,7 @@ set -u
 out=/tmp/neutral; rm -rf $out; mkdir -p $out
 edit() { # name file old new [text appended to the file]
   local name=$1 file=$2 old=$3 new=$4 app=${5:-}
+  if [ -n "${NE_ONLY:-}" ]; then case " $NE_ONLY " in *" $name "*) ;; *) return;; esac; fi
   git -C /repo diff --quiet || { echo "/repo dirty"; exit 2; }
   python3 - "$file" "$old" "$new" "$app" <<'PY' || { echo "$name: edit site not unique/absent"; return; }
 import sys
@@ -60,4 +61,11 @@ edit loadca-var      $R/tls.go 'caCertPool := x509.NewCertPool()' 'p := x509.New
 edit quic-live-var   $T/quic_transport.go $'\t\tif !ctxIsDone(t.c.Context()) {' $'\t\tcc := t.c\n\t\tif !ctxIsDone(cc.Context()) {'
 edit rename-recv     $T/pipeline_conn.go $'func (c *pipelineConn) Status() (s connpool.ConnStatus) {\n\tc.m.RLock()\n\tdefer c.m.RUnlock()\n\n\ts.Closed = c.closed\n\ts.Available = c.nextQid+c.reserved <= 65535' $'func (pc *pipelineConn) Status() (s connpool.ConnStatus) {\n\tpc.m.RLock()\n\tdefer pc.m.RUnlock()\n\n\ts.Closed = pc.closed\n\ts.Available = pc.nextQid+pc.reserved <= 65535'
 edit rename-addr-par $R/router.go $'func (r *router) packReq(q *dnsmsg.Question, remoteAddr netip.Addr) (pool.Buffer, error) {' $'func (r *router) packReq(q *dnsmsg.Question, clientIP netip.Addr) (pool.Buffer, error) {\n\tremoteAddr := clientIP'
+edit named-err-defer $D/msg.go $'func (m *Msg) Unpack(msg []byte) error {\n\tvar off int\n\tvar h header\n\toff, err := h.unpack(msg, off)' $'func (m *Msg) Unpack(msg []byte) (err error) {\n\tdefer func() {\n\t\tif err != nil {\n\t\t\tunpackFailures++\n\t\t}\n\t}()\n\tvar off int\n\tvar h header\n\toff, err = h.unpack(msg, off)' $'\nvar unpackFailures int\n'
+edit close-local     internal/upstream/upstream.go $'\tu.u.Close()\n\tu.t.Close()\n\treturn nil' $'\ttcp, udp := u.t, u.u\n\ttcp.Close()\n\tudp.Close()\n\treturn nil'
+edit copy-local      $R/router.go $'\t\tresp.Questions = append(resp.Questions, q.Copy())\n\t\tbreak' $'\t\tqc := q.Copy()\n\t\tresp.Questions = append(resp.Questions, qc)\n\t\tbreak'
+edit trunc-form      $D/msg.go $'\tm.Authorities = m.Authorities[:0]' $'\tauth := m.Authorities\n\tm.Authorities = auth[0:0]'
+edit promote-vars    $R/cache.go $'\t\t\t\tc.memory.Store(key, storedTime, expireTime, v, true)' $'\t\t\t\tst, et := storedTime, expireTime\n\t\t\t\tc.memory.Store(key, st, et, v, true)'
+edit label-ge-64     $D/name.go $'\tif labelLen > 63 {' $'\tif labelLen >= 64 {'
+edit closer-rename   $T/doh_transport.go 'closer' 'sockets'
 rm -rf $out
